@@ -105,6 +105,7 @@ type xlWorld struct {
 	// translate_dispatch.go
 	dispDone map[string]string // interface method name -> generated dispatcher (once its group is emitted)
 	disps    map[*xlFunc]*xlDisp
+	dispInfo map[string]*xlDisp // by interface method name
 }
 
 type xlDone struct {
@@ -222,7 +223,7 @@ func genFrom(repo string, whitelist []xlFunc, dom bool, header, footer string) (
 	defer os.Chdir(cwd)
 	w := &xlWorld{fset: token.NewFileSet(), pkgs: map[string]*xlPkg{}, tpkgs: map[string]*types.Package{},
 		done: map[*types.Func]*xlDone{}, structs: map[*types.Named]string{}, repo: repo, dom: dom, recs: map[*types.Func]*xlRec{},
-		dispDone: map[string]string{}, disps: map[*xlFunc]*xlDisp{}}
+		dispDone: map[string]string{}, disps: map[*xlFunc]*xlDisp{}, dispInfo: map[string]*xlDisp{}}
 	w.base = importer.ForCompiler(w.fset, "source", nil).(types.ImporterFrom)
 	for i := 0; i < len(whitelist); {
 		// a maximal run of entries with the same non-empty RecGroup is one mutual block
